@@ -12,7 +12,7 @@ from ..sched import Scheduler, atom, UNKNOWN
 from ..taint import Taint
 
 
-LATER_RULES = ' Later rules: (R6.5) loops over sets (also dicts filled from sets) only accumulate commutatively; (R6.6) = C05 R5.6; (R6.7) = C15 R15.9, the evaluator reveals no set order.'
+LATER_RULES = ' Later rules: (R6.5) loops over sets (also dicts filled from sets) only accumulate commutatively; (R6.6) = C05 R5.6; (R6.7) = C15 R15.9, the evaluator reveals no set order. (R6.9) a pool worker reads no source file but its own (known finding: import tracing).'
 
 
 def check(prog: Program, tier: str) -> Result:
@@ -51,6 +51,7 @@ def check(prog: Program, tier: str) -> Result:
     _tmp = Result("C05", "", "")
     _c05._r5_6(prog, _tmp)
     res.adopt(_tmp, {"R5.6"}, "R6.6", "with parallel workers, state kept between calls makes the output depend on which files a worker was given before")
+    _r6_9(prog, res)
     _c05._r5_8(prog, _tmp)
     res.adopt(_tmp, {"R5.8"}, "R6.6", "a mutated default argument is state kept between calls: the output depends on which files the same worker was given before")
     _r6_8(prog, res)
@@ -191,6 +192,72 @@ def _r6_2(prog: Program, res: Result) -> None:
                    f"component present ({sorted(mentioned)})" if ok else
                    f"the sort key does not depend on the {why}" + (" text (unparse)" if need == "rewrite.new" else "") +
                    ": two scheduled rewrites that differ only in it keep their yield order, which differs between runs")
+
+
+# ------------------------------------------------------------------------------------------------ R6.9
+def _r6_9(prog: Program, res: Result) -> None:
+    """Parallel = sequential only if no worker reads what another worker writes.  format_files hands every file to its own call of the
+    worker (the function given to the pool); a worker WRITES its own file.  If the worker can reach a read of some OTHER python
+    source (import tracing opens the files of the modules a star import names), then formatting `helpers.py` and `user.py` (which
+    star-imports helpers) in one run gives `user.py` the exports of helpers BEFORE or AFTER its rewrite, depending on worker count
+    and schedule; one after the other it is always AFTER.  Instance: every file read (open / read_text of a path that is not the
+    worker's own parameter) reachable over the call graph from the worker of the pool dispatch."""
+    ff = prog.func("main", "format_files")
+    worker = None
+    for c in prog.calls_in(ff):
+        if isinstance(c.func, ast.Attribute) and c.func.attr in ("starmap", "map", "imap", "apply_async", "starmap_async", "map_async") and c.args:
+            r = prog.resolve_call(c.args[0], ff.mod, ff) if isinstance(c.args[0], (ast.Name, ast.Attribute)) else None
+            if r and r[0] == "fn":
+                worker = r[1]
+    if worker is None:
+        res.undecided("R6.9", ff.loc(), ff.fq, "worker of the pool dispatch", "not found")
+        return
+    own = set(worker.all_params)
+    seen, todo, hits = set(), [worker.key], []
+    while todo:
+        k = todo.pop()
+        if k in seen or k not in prog.funcs:
+            continue
+        seen.add(k)
+        g = prog.funcs[k]
+        for c in prog.calls_in(g):
+            d = prog.dotted(c.func) or ""
+            is_read = False
+            if d in ("open", "io.open", "tokenize.open") and c.args:
+                mode = c.args[1] if len(c.args) > 1 else next((kw.value for kw in c.keywords if kw.arg == "mode"), None)
+                is_read = not (isinstance(mode, ast.Constant) and any(ch in str(mode.value) for ch in "wax+"))
+                subject = c.args[0]
+            elif isinstance(c.func, ast.Attribute) and c.func.attr in ("open", "read_text", "read_bytes"):
+                mode = c.args[0] if c.args else next((kw.value for kw in c.keywords if kw.arg == "mode"), None)
+                is_read = not (isinstance(mode, ast.Constant) and any(ch in str(mode.value) for ch in "wax+"))
+                subject = c.func.value
+            if is_read:
+                names = {x.id for x in ast.walk(subject) if isinstance(x, ast.Name)}
+                if g is worker and names and names <= own:
+                    continue            # the worker's own file
+                if "pyproject" in norm(g.node) and "toml" in norm(g.node):
+                    continue            # configuration, written by no worker
+                hits.append((g, c))
+            r = prog.resolve_call(c.func, g.mod, g)
+            if r and r[0] == "fn":
+                todo.append(r[1].key)
+            # functions handed over as values (processing.chain((rule_a, rule_b)), key=f) are called by whoever gets them
+            for a in list(c.args) + [kw.value for kw in c.keywords]:
+                for x in ast.walk(a):
+                    if isinstance(x, (ast.Name, ast.Attribute)) and not isinstance(getattr(x, "ctx", None), ast.Store):
+                        r2 = prog.resolve_call(x, g.mod, g)
+                        if r2 and r2[0] == "fn":
+                            todo.append(r2[1].key)
+    if not hits:
+        res.ok("R6.9", worker.loc(), worker.fq, f"{worker.node.name}() # worker of the parallel dispatch", f"reads no file but its own ({len(seen)} reachable functions)")
+        return
+    by_fn = {}
+    for g, c in hits:
+        by_fn.setdefault(g.fq, (g, c))
+    for fq, (g, c) in sorted(by_fn.items()):
+        res.bad("R6.9", g.loc(c), g.fq, f"{short(c, 60)} # a worker reads the source of another module",
+                f"reachable from the pool worker {worker.fq}(): when that module is among the files of the same run, another worker rewrites it at the same time - the "
+                "result depends on which of the two is first (with one worker: always the sorted order), so parallel and sequential runs differ")
 
 
 def _r6_3(prog: Program, res: Result) -> None:
@@ -546,6 +613,10 @@ def _callers_in_pipeline(prog: Program, fn: Func, fc: Func) -> List[Tuple[str, s
 from ..selftest import Variant  # noqa: E402
 
 VARIANTS = [
+    Variant("a-rule-reads-a-sibling-file", "FIRE", "fixes", "    undefined_variables = tracing.get_undefined_variables(source)\n",
+            "    undefined_variables = tracing.get_undefined_variables(source)\n    sibling = Path(\"conftest.py\")\n    known_elsewhere = sibling.read_text() if sibling.exists() else \"\"\n    undefined_variables = {name for name in undefined_variables if name not in known_elsewhere}\n", "R6.9"),
+    Variant("worker-reads-its-own-file-through-pathlib", "SILENT", "main", "    with open(filename, \"r\", encoding=\"utf-8\") as stream:\n        initial_content = stream.read()\n\n    keep_imports",
+            "    initial_content = filename.read_text(encoding=\"utf-8\")\n\n    keep_imports"),
     Variant("block-types-from-a-set", "FIRE", "core",
             "    types_with_blocks = tuple(\n        dict.fromkeys((*constants.AST_TYPES_WITH_BODY, *constants.AST_TYPES_WITH_ORELSE))\n    )\n",
             "    types_with_blocks = tuple({*constants.AST_TYPES_WITH_BODY, *constants.AST_TYPES_WITH_ORELSE})\n", "R6.8"),
